@@ -138,6 +138,8 @@ class StrExec:
         m = re.match(r"const (true|false)$", tok)
         if m:
             return ("boolc", m.group(1) == "true")
+        if re.match(r"const Result::<.*>::Err\(.*VariantNotFound\)$", tok):
+            return ("err", ("opaque", "VariantNotFound"))      # a whole-constant error result (enum without enabled variants)
         if tok.startswith("const "):
             return ("opaque", tok)
         raise Unsupported("operand " + tok)
@@ -412,3 +414,23 @@ def props_vcs(fns, spec, discs, tables):
                 vcs.append({"name": "%s_%s_has_%s" % (getter, v.ident, k), "what": "declared key %r of %s returns its value" % (k, v.ident),
                             "script": "(assert (= s %s))\n(assert (not %s))" % (smt_str(k), reach), "twin": "(assert (= s %s))" % smt_str(k)})
     return vcs, used
+
+
+def validate_pairs(fns, spec, user_fns, pairs):
+    """translator validation: concrete (input, expected outcome) pairs taken from the repository's own tests are pushed
+    through the ENCODING (not through strum): expected = variant ident | ("default", ident) | None (error).
+    Returns a list of (input, expected, verdict) where verdict 'unsat' means the encoding maps the input as the test asserts."""
+    fn = find_from_str(fns, spec.name)
+    leaves = StrExec(fn, spec.name, user_fns).run()
+    out = []
+    for inp, exp in pairs:
+        def ok(oc):
+            if exp is None:
+                return oc is not None and oc[0] == "err"
+            if isinstance(exp, tuple):
+                return oc is not None and oc[0] == "ok" and oc[1][0] == "variant" and oc[1][1] == exp[1] and oc[1][2] == [("from_input",)]
+            return oc is not None and oc[0] == "ok" and oc[1][0] == "variant" and oc[1][1] == exp
+        reach = OR(*[c for c, oc in leaves if ok(oc)])
+        v, secs, detail = solve_str("(assert (= s %s))\n(assert (not %s))" % (smt_str(inp), reach))
+        out.append((inp, exp, v))
+    return out
